@@ -164,6 +164,7 @@ def sites():
         # a sweep whose LAST step has no input power (negative-resistance load): nothing may be printed before the diagnostic
         'free/x/late_step_without_power': ('free', ['-f', '14.3', '--load=-30', '--attach-load=1,5', '--frequency-steps=3',
                                                     '--frequency-increment=-3.5']),
+        'free/x/sweep_to_zero': ('free', ['-f', '8', '--frequency-steps=3', '--frequency-increment=-4']),
         'free/x/zero_voltage': ('free', ['--excitation-voltage=0']),
         'free/x/tiny_voltage': ('free', ['--excitation-voltage=1e-25']),
         'free/x/negative_resistance_load': ('free', ['--load=-5000', '--attach-load=1,all']),
